@@ -20,6 +20,7 @@ ASSUMPTIONS = ["comparison operators of items are not user callables in the sens
 def cases(tier, rng):
     yield from s1.base_cases(tier, rng, s1.KINDS_ALL, s1.cons_all_cuts, tools_subset=s1.ITER_TOOLS + ["all", "any"])
     yield from s1.odd_value_cases(tier, rng, s1.KINDS_ALL, 500 if tier == "quick" else 10000, tools_subset=s1.ITER_TOOLS + ["all", "any"])
+    yield from s1.impure_fn_cases(tier, rng, s1.KINDS_ALL, tools_subset=s1.ITER_TOOLS, cons_for=s1.cons_all_cuts)
     yield from s1.random_cases(tier, rng, s1.KINDS_ALL, 1500 if tier == "quick" else 40000, cons_kinds=("exhaust", "close"), tools_subset=s1.ITER_TOOLS + ["all", "any"])
 
 
